@@ -16,6 +16,9 @@ CHECKS = {
  "C04": ("same exhaustive sweep as C01 with a panic/termination oracle + exhaustive off-by-one dimension mutations (documented construction panic expected)",
          "Every enumerated well-formed program (incl. m=0, empty cones, singleton SOC/PSD, zero rows/columns, duplicate rows, 1e+-6 scalings) must construct and solve without panicking, end in a terminal status and respect max_iter; every single off-by-one dimension inconsistency must be rejected by the documented assertion.",
          "cone-membership and KKT evaluator in mc/src/oracle.rs are trusted; comparisons carry a 1e-6 relative slack plus the floating-point evaluation allowance 4(n+m+4)u*sum|terms|; PSD cones run on the harness's self-checking plain-Rust BLAS/LAPACK shims; decides the property for the enumerated lattice of problems/settings only; hangs are bounded by max_iter (checked) and the per-space wall-clock cap", "DESIGN.md §5 C04"),
+ "C10": ("bounded-exhaustive enumeration of all sparsity patterns x row/column magnitude assignments (1e-15..1e15) x P menu x cone lists x equilibrate_* settings on the real DefaultSolver::new; entry-for-entry oracle on the public data/equilibration fields",
+         "Every enumerated problem (about 2e7 in quick) is constructed by the real constructor and the internal data are compared entry for entry with c*D*P*D, E*A*D, c*D*q, E*b of the user's data, together with the cumulative scaling bounds, reciprocals, unit scaling of all-zero rows/columns in scalar cones, constancy of E on every non-scalar cone and bitwise untouched data when disabled.",
+         "relative 1e-13 on entries, 64-ulp slack on bounds, 8-ulp spread allowed for E on a non-scalar cone (see DESIGN.md false-alarm log)", "DESIGN.md §5 C10"),
  "C12": ("bounded-exhaustive enumeration (all symmetric patterns n<=5 x all permutations x all D-sign vectors x 5 value/regularisation variants; every vector in {0..n}^n as perm; all small encodings; all update/scale/offset/refactor histories to depth 4) on the real QDLDLFactorisation, backward-error oracle in dense arithmetic + exact rational zero-pivot oracle",
          "Every case in the stated bound is factored, solved and (for histories) refactored by the real public clarabel::qdldl API; each result is judged from the returned L, D, Dinv, perm, inertia and counts against PAP'=LDL' elementwise with a 64*n*eps*|L||D||L'| bound, the regularisation rule, bitwise equality of refactor vs. fresh factorisation, and mandatory errors for every invalid permutation / structure / exactly-zero pivot.",
          "dense reference arithmetic in mc/src/props/c12.rs is trusted; growth is bounded by construction (diagonally dominant or +-1 data); n<=40 random matrices only as a labelled sampling supplement",
